@@ -1,8 +1,8 @@
 package main
 
 import (
-	"go/constant"
 	"fmt"
+	"go/constant"
 	"go/token"
 	"go/types"
 	"sort"
@@ -660,7 +660,6 @@ func c03R3(c *Ctx, r *Report) {
 		}
 	}
 }
-
 
 func c03R4(c *Ctx, r *Report) {
 	const rule = "C03-R4"
